@@ -83,9 +83,6 @@ Lemma rule_over_intervals_len ts vals mids P tr init greedy l : rule ts vals mid
   List.length (dump_intervals mids P) = List.length mids /\
   exists st, l = map (dump_value (fun v => memZ v greedy) (combine ts (map (app_tr tr) vals)) st) (dump_intervals mids P).
 Proof. intros. split; [apply dump_intervals_length|eapply rule_over_intervals; eassumption]. Qed.
-Lemma run_hist_pure' hs dflt mids P raw ops :
-  run_hist hs dflt mids P raw ops = (raw, map (convert hs dflt mids P raw) ops).
-Proof. apply run_hist_pure. Qed.
 
 (* membership in a dump, in terms of mid times and period: t lies in dump k iff  lo_k < t <= mid_k + P/2 *)
 Lemma in_dump_spec lo hi t : in_dump (lo, hi) t = true <-> lo < t <= hi.
@@ -150,6 +147,10 @@ Proof.
   unfold run_hist. induction ops as [|p r IH]; intro raw; [reflexivity|].
   cbn [run_hist_with]. rewrite conv_step_pure. rewrite IH. reflexivity.
 Qed.
+
+Lemma run_hist_pure' hs dflt mids P raw ops :
+  run_hist hs dflt mids P raw ops = (raw, map (convert hs dflt mids P raw) ops).
+Proof. apply run_hist_pure. Qed.
 
 Lemma run_cache_pure hs dflt mids P pt raw gets : forall c,
   (forall n o, cached c n = Some o -> o = convert hs dflt mids P raw (pt n)) ->
